@@ -871,6 +871,44 @@ theorem itemList_print (arg : Expr) (dirs : List Directive) (hC : CmdCanon ff pf
   rw [fbind_ok hun]
   rfl
 
+/-- `itemList(untl…)` inside a block — e.g. `itemList(itemTemplateEnd)`, the body of a template — on `{`, the tokens of a
+    printed print command, `}` and the closing command `{` `cl` (`cl` an until token): the list with the one print
+    node; the stream is left behind `cl` -/
+theorem itemList_print_until (arg : Expr) (dirs : List Directive) (hC : CmdCanon ff pf arg dirs) (ef fuel : Nat)
+    (hE : ExprFuel ff ef arg dirs) (hf : ∀ d ∈ dirs, d.args.length + dirs.length + 1 < fuel) (hf' : dirs.length < fuel)
+    (untl : List ItemType) (hu1 : untl.contains .tLeftDelim = false) (hu2 : ∀ t ∈ headTypes, untl.contains t = false)
+    (cl : Tk) (hcl : untl.contains cl.typ = true) (rest : List Tk) (st : FState)
+    (hst : At st.p (⟨.tLeftDelim, [123]⟩ :: (unsp (piecesBody ff arg dirs) ++ tRD :: ⟨.tLeftDelim, [123]⟩ :: cl :: rest))) :
+    ∃ lpos pos e' ds' p', itemListLoop pf ef (fuel + 3) untl none .nil st =
+        .ok (.list lpos (.cons (Node.print pos e' ds') .nil), { st with p := p' }) ∧
+      erase e' = erase arg ∧ ds'.map eraseDir = dirs.map eraseDir ∧ At p' rest := by
+  obtain ⟨k, rfl⟩ : ∃ k, fuel = k + 1 := ⟨fuel - 1, by omega⟩
+  obtain ⟨ld, p1, hn1, hlt, _, hj1⟩ := fnext_at hst
+  obtain ⟨pos, e', ds', p2, hto, he, hd, ha⟩ := textOrTag_print ff pf T arg dirs hC ef (k + 1) hE hf hf' untl
+    hu1 hu2 ld hlt (⟨.tLeftDelim, [123]⟩ :: cl :: rest) { st with p := p1 } hj1.at
+  obtain ⟨l2, p3, hn2, hl2, _, hj3⟩ := fnext_at (st := { st with p := p2 }) ha
+  have hl2' : l2.typ = .tLeftDelim := hl2
+  obtain ⟨c, p4, hn3, hct, _, hj4⟩ := fnext_at (st := { st with p := p3 }) hj3.at
+  have hun : textOrTag pf ef (k + 1 + 1) l2 untl { st with p := p3 } = .ok ((none, true), { st with p := p4 }) := by
+    unfold textOrTag
+    simp only
+    rw [fbind_ok (skipComments_id k l2 _ (by rw [hl2']; decide))]
+    simp only [hl2', hu1, Bool.false_eq_true, if_false]
+    rw [fbind_ok hn3]
+    simp only [hct, hcl, beq_self_eq_true, Bool.and_self, if_true]
+    rfl
+  refine ⟨ld.pos, pos, e', ds', p4, ?_, he, hd, hj4.at⟩
+  unfold itemListLoop
+  rw [fbind_ok hn1]
+  simp only
+  rw [fbind_ok hto]
+  simp only [Bool.false_eq_true, if_false]
+  unfold itemListLoop
+  rw [fbind_ok hn2]
+  simp only
+  rw [fbind_ok hun]
+  rfl
+
 end
 
 /-! ## from bytes to the print node, and injectivity -/
